@@ -14,6 +14,8 @@ ARGS = [
     (':--a', None, {':--a': 'p', ':--b': 'div'}, 0), (':--a', None, {':--b': 'div', ':--a': 'p'}, 0),
     (':--a', None, {':--a': 'p'}, 0), (':--a', None, {':--a': 'div', ':--b': 'div'}, 0),
     (':--a', {'x': 'urn:x'}, {':--a': 'p'}, 0), ('p:nth-child(2n+1)', None, None, 0), ('p:nth-child(odd)', None, None, 0),
+    ('a > b', None, None, 0), ('a b', None, None, 0), ('a + b', None, None, 0), ('[type=a]', None, None, 0),
+    ('[type=a i]', None, None, 0), (':is(a)', None, None, 0), (':where(a)', None, None, 0), ('p', {'x': 'urn:x'}, None, 0),
 ]
 NARGS = len(ARGS)
 
@@ -71,6 +73,35 @@ def _nodes(obj, out):
         for x in obj:
             _nodes(x, out)
     return out
+
+
+ALLPOOL = selgen.general_pool() + ['a > b', 'a b', 'a + b', 'a ~ b', '[type=a]', '[type=a i]', '[type=A]', '[t=a]', '[t=a s]',
+                                 ':is(a)', ':where(a)', ':not(a)', ':has(a)', ':has(> a)', 'p:first-child', 'p:nth-child(1)',
+                                 'p:nth-last-child(1)', 'p:nth-of-type(1)', ':nth-child(1 of a)', ':nth-child(1 of b)',
+                                 ':lang(en)', ':lang(fr)', ':-soup-contains(a)', ':-soup-contains-own(a)', ':dir(ltr)',
+                                 ':dir(rtl)', 'x|a', '*|a', '|a', 'a', ':root', ':empty', ':scope', '.a', '#a', '[a]', '[x|a]']
+ALLPOOL = [x for i, x in enumerate(ALLPOOL) if x not in ALLPOOL[:i]]
+ALLC = [sv.compile(x, {'x': 'urn:x', 'svg': 'http://www.w3.org/2000/svg'}, custom={':--z': 'p'}).selectors for x in ALLPOOL]
+ALLP = part(list(range(len(ALLPOOL))))
+
+
+def ir_eq_repr_ok(i: int) -> bool:
+    """
+    pre: 0 <= i < len(ALLP)
+    post: _
+    """
+    # structural equality of compiled structures agrees with equality of their reprs (which show every slot, incl. regex
+    # flags): no field is ignored by __eq__ / __ne__, and equal structures hash equally
+    i = concrete(i)
+    with notrace():
+        a = ALLC[ALLP[i]]
+        ok = True
+        for b in ALLC:
+            same = repr(a) == repr(b)
+            ok = ok and (a == b) == same and (a != b) == (not same)
+            if same:
+                ok = ok and hash(a) == hash(b)
+    return ret(ok)
 
 
 def immutable_ok(i: int) -> bool:
